@@ -45,6 +45,9 @@ TEMPLATES = [
     "def f(a, b):\n    if (n := a) is None or not b:\n        return 0\n    return n\n",
     "def f(a, b):\n    return [x for x in a if x is not None]\n",
     "def f(a, b):\n    pass\n",
+    "def f(a, b):\n    for *head, last in a:\n        if last:\n            b += 1\n    return b\n",
+    "def f(a, b):\n    for first, *rest in a:\n        if first is None:\n            continue\n        b = rest\n    else:\n        return None\n    return b\n",
+    "def f(a, b):\n    for (p, q), *mid, (r, s) in a:\n        while p:\n            p -= 1\n            if q: break\n    return b\n",
     "def f(a, b):\n    x = not a\n    while x is None:\n        if b: continue\n        x = b\n    return x if x is not None else 3\n",
 ]
 
@@ -190,6 +193,12 @@ def run(spec):
                 continue
             for c in codes:
                 _record(col, ver, f"gen:{c.co_name}", c, src)
+    elif kind == "huge":
+        # one jump over >= 65536 code units needs TWO EXTENDED_ARG prefixes
+        for k in spec[1]:
+            src = long_body(k, 33000)
+            fn, codes = codes_of_source(src)
+            _record(col, ver, f"huge:{k}", fn.__code__, None)
     elif kind == "warm":
         for src, argtuples in WARM:
             _warm(col, ver, src, argtuples)
@@ -371,13 +380,13 @@ def plan(tier, seed):
         specs += [("corpus", s, 16, 10**9) for s in range(16)]
         specs += [("gen", seed, s, 60) for s in range(8)]
         specs += [("trace", seed, s, 25) for s in range(8)]
-        specs += [("warm",)]
+        specs += [("warm",), ("huge", ["if"])]
         specs += [("child311", seed, s, 8, 10**9, 40) for s in range(8)]
     else:
         specs += [("corpus", s, 16, 10**9) for s in range(16)]
         specs += [("gen", seed, s, 1500) for s in range(16)]
         specs += [("trace", seed, s, 500) for s in range(16)]
-        specs += [("warm",)]
+        specs += [("warm",), ("huge", ["if"]), ("huge", ["while"]), ("huge", ["for"])]
         specs += [("child311", seed, s, 16, 10**9, 600) for s in range(16)]
     return specs
 
@@ -422,6 +431,9 @@ def replay(inp):
         fn, codes = codes_of_source(inp["src"])
         for c in codes:
             _record(col, "3.12", "replay", c, inp["src"])
+    elif inp["function"].startswith("huge:"):
+        fn, codes = codes_of_source(long_body(inp["function"].split(":")[1], 33000))
+        _record(col, "3.12", inp["function"], fn.__code__, None)
     else:
         mod = inp["function"].split(":")[0]
         for label, code in bm.corpus_codes(modules=[mod]):
